@@ -219,3 +219,78 @@ def run(ctx):
                "at the accessor's assertion; the tag is also what dispatches Dictionary::word_*)"
                % (comp, arg[:60]))
     ctx.floor("LEXTAG", "component accessor calls in write_dictionary", n, 3)
+
+
+def chartype(ctx):
+    """CHARTYPE (C18): `%t` is the character category. The category id handed to
+    Trainer::extract_feature_set is, for a lexicon or user word, the *primary* category
+    (`base_id()`) of the *first* character of its surface (`chars().next()`), and for an unk.def
+    entry the category that entry belongs to (`word_cate_id`). The system-word label used for
+    the training lattice is word id + 1 (sibling of LABELBASE)."""
+    crate = ctx.facts("A").lib
+    E = Effects(crate)
+    n = 0
+    for p, f in sorted(crate.fns.items()):
+        if not f.body or f.krate != "vibrato":
+            continue
+        fa = E.fa(p)
+        S = None
+        for b, t in fa.calls():
+            if not any(strip_generics(x).endswith("Trainer::extract_feature_set") for x in callee_paths(t)):
+                continue
+            S = S or Sym(E, fa)
+            n += 1
+            arg = t["args"][5]
+            txt = show(S.operand(arg))
+            o = fa.origin(arg)
+            ok, why = False, txt[:80]
+            # peel conversions
+            for _ in range(3):
+                if o[0] == "call" and _names(o[2]) & {"from", "into"}:
+                    o = fa.origin(o[2]["args"][0])
+            if o[0] == "call" and "word_cate_id" in _names(o[2]):
+                ok, why = True, "the unk.def entry's own category"
+            elif o[0] == "call" and "base_id" in _names(o[2]):
+                ci = fa.origin(o[2]["args"][0])
+                if ci[0] == "call" and "char_info" in _names(ci[2]):
+                    chain = []
+                    cur = ci[2]["args"][1]
+                    for _ in range(8):
+                        oo = fa.origin(cur)
+                        if oo[0] != "call":
+                            break
+                        nm = sorted(_names(oo[2]))[0]
+                        chain.append(nm)
+                        if nm == "chars" or not oo[2]["args"]:
+                            break
+                        cur = oo[2]["args"][0]
+                    picks = [c for c in chain if c not in ("unwrap", "expect", "chars", "as_str", "deref", "as_ref",
+                                                           "unwrap_or", "unwrap_or_default", "copied", "cloned")]
+                    ok = picks == ["next"] and "chars" in chain
+                    why = "base_id(char_info(%s))" % " <- ".join(chain)
+                else:
+                    why = "base_id of something that is not char_info(..)"
+            ctx.ob("CHARTYPE", "%s|cate-id|%d" % (p, n), ok, fa.loc(b),
+                   "%s: %%t is %s" % (p.split("::")[-1], why if "category" in why else
+                                      "the primary category of the surface's first character") if ok else
+                   "%s passes %s as the character type: `%%t` must be the primary category "
+                   "(base_id) of the first character of the surface, or the unk.def entry's category"
+                   % (p.split("::")[-1], why))
+    ctx.floor("CHARTYPE", "extract_feature_set call sites", n, 3)
+    # system-word label in build_lattice
+    bl = [q for q in crate.fns if q.startswith(P_BL) and crate.fns[q].body]
+    got = []
+    for q in bl:
+        fb = E.fa(q)
+        Sb = Sym(E, fb)
+        for b, t in fb.calls():
+            if "new" in _names(t) and "NonZero" in " ".join(callee_paths(t)) and t["args"]:
+                e = Sb.operand(t["args"][0])
+                txt = show(e)
+                if "word_id" in txt and "surfaces" not in txt and "arg1.#0" not in txt and "len(" not in txt:
+                    got.append((_lin(e), fb.loc(b)))
+    ok = len(got) == 1 and got[0][0][1] == 1
+    ctx.ob("LABELBASE", "%s|trainer-system-label" % P_BL, ok, got[0][1] if got else "vibrato/src/trainer.rs",
+           "the trainer labels lexicon word i as i + 1 (slot i)" if ok else
+           "the trainer's label for a lexicon word is not word id + 1 (%s): negative edges of the "
+           "training lattice carry the neighbouring word's label" % [g[0] for g in got])
